@@ -140,6 +140,10 @@ pub fn make_case(c: &CaseRef, fx: &Fixtures) -> Option<(String, Cfg, String)> {
             let (s, cfg) = imp_case(c.idx);
             Some((s, cfg, "import".into()))
         }
+        "nl" => {
+            let (s, cfg, used) = nl_case(c.idx);
+            Some((s, cfg, used.join(" ")))
+        }
         "mal" => {
             let (s, cfg) = mal_case(c.idx, fx);
             Some((s, cfg, "mal".into()))
@@ -154,6 +158,7 @@ pub fn universe_size(gen: &str, fx: &Fixtures) -> u64 {
         "gram" => GRAM_U,
         "exh" => exh_universe(),
         "imp" => IMP_U,
+        "nl" => NL_U,
         "mal" => MAL_U,
         "range" => other::RANGE_U,
         "cli" => cli::CLI_U,
@@ -206,7 +211,7 @@ pub fn oracle(prop: &str, src: &str, source: &Source, cfg: Cfg, out: &str, count
         }
     };
     match prop {
-        "C01" => push("tree", obs::check_c01(source, out, cfg)),
+        "C01" | "C02" => push("tree", obs::check_c01(source, out, cfg)),
         "C03" => match obs::format(out, cfg) {
             Ok(o2) => {
                 if o2 != out {
@@ -268,6 +273,9 @@ pub fn case_hash(src: &str, _cfg: Cfg) -> u64 {
 }
 
 /// `VH_KNOWN` names known-indices.json: {"Cxx": [[gen, idx, hash], …], …} (written by scripts/revalidate.py).
+pub fn load_known_indices_pub(prop: &str) -> HashSet<(String, u64, u64)> {
+    load_known_indices(prop)
+}
 fn load_known_indices(prop: &str) -> HashSet<(String, u64, u64)> {
     let mut set = HashSet::new();
     let Ok(path) = std::env::var("VH_KNOWN") else { return set };
@@ -340,6 +348,7 @@ fn run_printer(prop: &str, tier: &str, seed: u64, outdir: &str, only: Option<(&'
     } else {
         let thorough = tier == "thorough";
         let (nfix, nexh, ngram, nimp) = if thorough { (u64::MAX, u64::MAX, 300_000, 20_000) } else { (6_000, 8_000, 12_000, 1_000) };
+        select("nl", NL_U, if thorough { 60_000 } else { 4_000 }, seed, &mut cases);
         select("fix", universe_size("fix", &fx), nfix, seed, &mut cases);
         select("exh", universe_size("exh", &fx), nexh, seed, &mut cases);
         select("gram", GRAM_U, ngram, seed, &mut cases);
@@ -515,6 +524,7 @@ fn main() {
                 "gram" => "gram",
                 "exh" => "exh",
                 "imp" => "imp",
+                "nl" => "nl",
                 _ => "mal",
             };
             run_printer(&args[2], "thorough", 0, &args[6], Some((gen, args[4].parse().unwrap(), args[5].parse().unwrap())));
